@@ -375,7 +375,7 @@ impl FragModel {
 impl Model for FragModel {
     fn apply(&mut self, op: &Value) -> Value {
         let v = op["v"].as_u64().unwrap();
-        let v = if v == 2_000_000_000 { usize::MAX } else { v as usize };
+        let v = if v == 2_000_000_000 { usize::MAX } else if v == 2_000_000_001 { (1usize << 32) + 500 } else { v as usize };
         match self.f.set_fragment_size(v) {
             Ok(_) => json!({"res": "Ok"}),
             Err(e) => json!({"res": format!("{e:?}")}),
